@@ -214,6 +214,59 @@ def r08_2(ctx):
     chops = [ct for bi, d, ct in calls_in(ctx, b) if d == 'raqote::geom::chop_quad_at']
     ok = len(chops) == 1 and strip_all(chops[0][2][1])[0] == 'mem'
     ctx.check(ok, R, key + '|chop call', b.loc(), 'chop_quad_at(&curve, &mut dst, t)', 'add_quad does not chop the curve into dst with chop_quad_at')
+    # the forced-monotonic fallback: the control ordinate snaps to the *nearer* of the two end ordinates
+    # (reached when is_not_monotonic holds but no chop parameter exists, e.g. control level with the start: snapping to
+    # the far end would turn a rounded corner into a straight diagonal)
+    forced = [d for d in an.defs_of.get(2, []) if d.kind == 'assign' and d.partial and d.node['p']['pr'] and d.node['p']['pr'][-1].get('n') == 'y']
+    if ctx.check(len(forced) == 1, R, key + '|forced monotonic store', b.loc(), 'one store to curve[k].y', 'expected one store to the control ordinate of `curve` in add_quad, found %d (fail closed)' % len(forced)):
+        d = forced[0]
+        pr0 = d.node['p']['pr'][0]
+        kidx = None
+        if pr0['k'] == 'index':
+            kidx = const_val(an.term_at(d.bb, d.idx, {'k': 'copy', 'p': {'l': pr0['l'], 'pr': []}}))
+        elif pr0['k'] == 'cidx':
+            kidx = pr0.get('off', pr0.get('i'))
+        ctx.check(kidx == 1, R, key + '|forced monotonic target', b.loc(d.node['sp']), 'the fallback overwrites curve[1].y', 'the forced-monotonic fallback overwrites curve[%s].y, expected the control point curve[1].y' % kidx)
+        v = an.rvalue_term(d.bb, d.idx, d.node['rv'])
+        def ord_of(t):
+            t = strip_all(t)
+            if t[0] == 'field' and t[2] == 'y':
+                r = strip_all(t[1])
+                if r[0] == 'index' and strip_all(r[1]) in (('param', 2), ('phi', 2, ())) or (r[0] == 'index' and strip_all(r[1])[0] in ('param', 'phi') and strip_all(r[1])[1] == 2):
+                    return const_val(r[2])
+            return None
+        def dist_end(t):
+            # |curve[1].y - curve[k].y| -> k
+            t = strip_all(t)
+            if not is_call(t, '::abs'):
+                return None
+            x = strip_all(t[2][0])
+            if x[0] == 'bin' and x[1] == 'Sub':
+                ks = sorted([ord_of(x[2]), ord_of(x[3])], key=lambda z: (z is None, z))
+                if ks[0] == 1 and ks[1] in (0, 2):
+                    return ks[1]
+                if ks[0] == 0 and ks[1] == 1:
+                    return 0
+            return None
+        choices = []
+        if v[0] == 'phi':
+            for dk in v[2]:
+                dd = an.defs[dk]
+                if dd.kind != 'assign':
+                    choices.append((None, None))
+                    continue
+                val = ord_of(an.def_term(dd))
+                near = None
+                for op, a, b2, si in normalized_guards(ctx, b, dd.bb):
+                    neg = op.startswith('!')
+                    o = op.lstrip('!')
+                    if o in ('Lt', 'Le', 'Gt', 'Ge') and b2 is not None and dist_end(a) is not None and dist_end(b2) is not None:
+                        smaller_is_lhs = (o in ('Lt', 'Le')) != neg
+                        near = dist_end(a) if smaller_is_lhs else dist_end(b2)
+                choices.append((val, near))
+        okn = len(choices) == 2 and sorted(c[0] for c in choices if c[0] is not None) == [0, 2] and all(c[0] == c[1] for c in choices)
+        ctx.check(okn, R, key + '|forced monotonic snaps to the nearer end', b.loc(d.node['sp']), 'curve[1].y := nearer of curve[0].y / curve[2].y',
+                  'the forced-monotonic fallback does not set the control ordinate to the nearer of the two end ordinates (value chosen / end that is nearer under the guard: %s): a quad whose control point is level with its start is bent to its far end and the curve degenerates to a straight diagonal' % choices)
     # axis symmetry of the interpolation helpers
     bx = ctx.body('raqote::geom::interp_quad_x_coords', R)
     by = ctx.body('raqote::geom::interp_quad_y_coords', R)
@@ -758,3 +811,88 @@ def r08_5(ctx):
         ok = px in first and py in first and axis_blind(first[px]) == axis_blind(first[py]) and axes_used(first[px]) <= {'x'} and axes_used(first[py]) <= {'y'} and axes_used(first[px]) and axes_used(first[py])
         ctx.check(ok, R, 'rasterizer::Rasterizer::add_edge|%s/%s twins' % (px, py), ab.loc(), 'e.%s and e.%s are the same expression of their own axis' % (px, py),
                   'in add_edge the forward-difference coefficient e.%s = %s and e.%s = %s are not the same function of their own axis' % (px, fmt(ab, first.get(px, ('unknown', '?')))[:120], py, fmt(ab, first.get(py, ('unknown', '?')))[:120]))
+
+
+def r01_9(ctx):
+    """sort_edges sorts to a fixpoint: the pass is repeated while the last pass swapped anything, the flag is raised by
+    every swap and lowered only between passes, and only strictly out-of-order neighbours are swapped"""
+    R = 'R01.9'
+    b = ctx.body(RAS + 'sort_edges', R)
+    an = ctx.an(b)
+    cfg = an.cfg
+    key = 'rasterizer::Rasterizer::sort_edges'
+    loops = cfg.loops()
+    nested = [(h, bl) for h, bl in loops.items() if any(h2 != h and h in bl2 and bl < bl2 for h2, bl2 in loops.items())]
+    outer = [(h, bl) for h, bl in loops.items() if any(h2 != h and h2 in bl and loops[h2] < bl for h2 in loops)]
+    if not ctx.check(len(nested) == 1 and len(outer) == 1, R, key + '|pass loop inside repeat loop', b.loc(), 'one pass loop nested in one repeat loop',
+                     'cannot recover the bubble sort structure (a pass over the list nested in a repeat-until-no-swap loop): %d inner, %d outer loops (fail closed)' % (len(nested), len(outer))):
+        return
+    (ih, ibl), (oh, obl) = nested[0], outer[0]
+    # the repeat test: a bool switch in the outer loop (outside the pass) with one successor leaving the outer loop
+    flag = None
+    for si, t in b.terminators('switch'):
+        if si in obl and si not in ibl and t.get('ty') == 'bool':
+            succs = [tt for v, tt in t['targets']] + [t['otherwise']]
+            leaves = [x for x in succs if x not in obl and x not in cfg.dead]
+            if len(leaves) != 1:
+                continue
+            c = an.term_at(si, len(b.blocks[si]['st']), t['o'])
+            neg = False
+            while c[0] == 'un' and c[1] == 'Not':
+                c, neg = c[2], not neg
+            if c[0] in ('phi', 'rec'):
+                l = c[1] if c[0] == 'phi' else an.defs[c[1]].local
+                false_t = [tt for v, tt in t['targets'] if v == '0'][0]
+                exit_when = (false_t == leaves[0])      # leaves when the tested value is 0
+                exit_when_flag = False if (exit_when != neg) else True
+                flag = (l, si, exit_when_flag)
+    if not ctx.check(flag is not None, R, key + '|repeat test', b.loc(), 'the repeat loop is left on a bool flag', 'cannot find the bool flag whose value ends the repeat loop (fail closed)'):
+        return
+    fl, fsi, exit_when_flag = flag
+    ctx.check(exit_when_flag is False, R, key + '|repeat while swapped', b.loc(b.blocks[fsi]['t'].get('sp')), 'passes repeat while the flag is set',
+              'the repeat loop is left when the flag is set: the list is re-scanned only when nothing was swapped')
+    lows, highs, other = set(), set(), []
+    for d in an.defs_of.get(fl, []):
+        if d.kind == 'assign' and not d.partial and const_val(an.def_term(d)) in (0, 1) and an.def_term(d)[0] == 'const':
+            (highs if const_val(an.def_term(d)) == 1 else lows).add(d.bb)
+        else:
+            other.append(d)
+    ctx.check(not other, R, key + '|flag is only set/cleared', b.loc(), 'every definition of the flag is a constant',
+              'the swap flag is also assigned a computed value (%s): a later comparison in the same pass can lower it again, so a pass that swapped is reported as clean and the list is left unsorted (edges that overtake two neighbours between sample rows)' % [fmt(b, an.def_term(d)) if d.kind == 'assign' else d.kind for d in other])
+    ctx.check(bool(lows) and all(x in obl and x not in ibl and cfg.dominates(x, ih) for x in lows), R, key + '|flag lowered between passes only', b.loc(), 'flag := false before each pass, never inside it',
+              'the swap flag is lowered inside the pass over the list (or not before it): swaps made earlier in the pass are forgotten')
+    # swaps: heap writes inside the pass
+    swaps = sorted(set(pt[0] for a, v, pt, kind in an.stores if kind == 'assign' and pt[0] in ibl))
+    if not ctx.check(len(swaps) >= 1, R, key + '|swap stores (positive control)', b.loc(), '%d blocks relink list nodes' % len(swaps), 'cannot find the stores that swap two neighbouring edges (fail closed)'):
+        return
+    bad = []
+    for sb in swaps:
+        okp, pth = cfg.must_pass_through(sb, highs, exits=[ih])
+        # a store after which the flag is raised in the same block counts too
+        if not okp:
+            bad.append((sb, pth))
+    ctx.check(not bad and bool(highs), R, key + '|every swap raises the flag', b.loc(), 'flag := true on every path from a relinking store back to the pass header',
+              'two edges can be swapped without raising the swap flag (%s): the sort stops although the list may still be out of order' % bad)
+    # the swap guard: strictly greater, this node vs its successor
+    okg = True
+    seen = []
+    for sb in swaps:
+        gs = [(op, a, b2) for op, a, b2, si in normalized_guards(ctx, b, sb) if op.lstrip('!') in ('Gt', 'Ge', 'Lt', 'Le') and si in ibl]
+        seen += [op for op, a, b2 in gs]
+        good = False
+        for op, a, b2 in gs:
+            a, b2 = strip_all(a), strip_all(b2)
+            if not (a[0] == 'field' and a[2] == 'fullx' and b2[0] == 'field' and b2[2] == 'fullx'):
+                continue
+            if op in ('Lt', '!Ge'):
+                a, b2 = b2, a
+            elif op not in ('Gt', '!Le'):
+                continue
+            # a: the node the walk stands on (initialised from the list head), b2: its successor (payload of the link)
+            Da, Db = Deps(an), Deps(an)
+            Da.closure(a[1]); Db.closure(b2[1])
+            succ_payload = any(x[0] == 'field' and x[2] == '0' and x[4] == 'Some' for x in Db.visited)
+            good = succ_payload
+        okg = okg and good
+    ctx.check(okg, R, key + '|swap only when strictly greater', b.loc(), 'neighbours are swapped iff node.fullx > successor.fullx',
+              'the swap is not guarded by node.fullx > successor.fullx (guards seen: %s): with >= two edges at the same x are swapped on every pass and the sort never terminates; with the comparison reversed the list is sorted right-to-left and spans are produced in the wrong order' % sorted(set(seen)))
